@@ -106,10 +106,11 @@ def run(ctx):
                 "the mkstemp descriptors and the gzip handles are inspected; every injected run is non-trivial; distinct (workload, position)")
     rng = ctx.rng("c18")
     workloads = [(0, 2, True, None), (1, 2, True, None), (3, 2, True, None), (4, 2, True, None), (5, 2, False, None), (2, 3, False, None),
-                 (5, 1, True, None), (6, 2, True, 2), (5, 2, True, 0), (4, 3, True, 1)]
+                 (5, 1, True, None), (6, 2, True, 2), (5, 2, True, 3), (4, 3, True, 1)]
     if ctx.tier == "thorough":
         workloads += [(n, c, sp, ab) for n in range(0, 9) for c in (1, 2, 3, 4) for sp in (True, False) for ab in (None, 1)]
     fault_positions = []
+    corr = []      # (workload, observation) pairs compared with the Lean effect model
     with tempfile.TemporaryDirectory() as tmp:
         # many spill files (more than any plausible per-process descriptor budget heuristics): fault-free and a few faults
         for (n, cap) in [(300, 2), (450, 3)]:
@@ -137,10 +138,12 @@ def run(ctx):
                 out.failures.append(dict(where, what="fault-free sort is wrong", kind="clean-run"))
             ncalls = len(base["calls"])
             out.distribution["io_calls"] += ncalls
+            corr.append(((n, cap, sp, ab, None), scenario(n, cap, sp, ab, None, tmp)))
             positions = range(ncalls) if (ctx.tier == "thorough" or ncalls <= 60) else sorted(rng.sample(range(ncalls), 60))
             for k in positions:
                 out.evaluations += 1
                 obs = scenario(n, cap, sp, ab, k, tmp)
+                corr.append(((n, cap, sp, ab, k), obs))
                 w2 = dict(where, fault_at=k, call=base["calls"][k])
                 fault_positions.append((n, cap, sp, ab, k, base["calls"][k]))
                 out.nontrivial.add(repr(w2))
@@ -172,6 +175,34 @@ def run(ctx):
                     out.failures.append({"what": "writer.close() returned normally but the output holds %d of %d records" % (obs["lines"], n),
                                          "kind": "writer-incomplete", "n": n, "fault_at": k, "call": base["calls"][k]})
                 out.nontrivial.add(("writer", n, k))
+    # correspondence: the effect model predicts the exact I/O call sequence, what is raised in which phase, and what is left
+    reqs = []
+    for (n, cap, sp, ab, k), obs in corr:
+        r = {"op": "sorter.faults", "n": n, "cap": cap, "always_spill": sp}
+        if ab is not None:
+            r["abandon"] = ab
+        if k is not None:
+            r["fail_at"] = k
+        reqs.append(r)
+    mo = ctx.driver.run(reqs)
+    for r, m, (wl, obs) in zip(reqs, mo, corr):
+        i = {"calls": obs["calls"], "raised": [list(x) for x in obs["raised"]],
+             "output": [x[0] for x in obs["output"]] if obs["output"] is not None else None,
+             "fired": obs["fired"] is not None, "leaked_files": obs["leaked_files"], "leaked_fds": obs["leaked_fds"],
+             "open_handles": len(obs["open_handles"])}
+        if m != i:
+            keys = [k for k in m if m[k] != i.get(k)]
+            d = {"op": "sorter.faults", "workload": wl, "differs": keys}
+            if "calls" in keys:
+                j = next((x for x in range(min(len(m["calls"]), len(i["calls"]))) if m["calls"][x] != i["calls"][x]), min(len(m["calls"]), len(i["calls"])))
+                d["calls_differ_at"] = j
+                d["model_calls"] = m["calls"][j:j + 5]
+                d["impl_calls"] = i["calls"][j:j + 5]
+            for k in keys:
+                if k != "calls":
+                    d["model_" + k], d["impl_" + k] = m[k], i.get(k)
+            out.disagreements.append(d)
+    out.extra["traces_compared_with_model"] = len(reqs)
     out.extra["fault_positions"] = len(fault_positions)
     out.extra["fault_position_samples"] = fault_positions[:8]
     return out
